@@ -13,6 +13,11 @@ E1: bounded-exhaustive enumeration of (molecule, acyclic single heavy-atom bond)
             (expected product built here with RDKit only), unbonded when a restriction rule
             is reported, unchanged when no rule is reported.
  cross      every ordered pair of fragments of different cuts: general invariants only.
+ multi      the middle fragment of every pair of cuts (two open boundaries): alone, with a
+            boundary-less spectator compound (water gets its boundary, as in
+            build_compounds), and with one of its end fragments, all compound orders;
+            general invariants with rule applications counted with multiplicity, and the
+            composition/molecule count implied by the reported rules.
  targeted   carbonyl/hydroxyl oxygen x phosphorus (with and without P=O) and vinyl carbon x
             diazo, both orders, so that the three phosphorus rules and the nitrogen rule fire:
             general invariants only.
@@ -688,6 +693,254 @@ def alkoxy_probe(_):
     return out
 
 
+# ---- fragments with two open boundaries ("multi")
+
+SPECTATORS = ["CCN(CC)CC", "[Na+]", "c1ccncc1", "O"]
+
+
+def cut_two(m, b1, b2):
+    """Remove the two bonds b1=(i1,j1), b2=(i2,j2), cap the four ends with H.  Returns
+    (middle, ends) where middle = (smiles, [boundary, boundary]) is the component that
+    touches both cuts (boundaries in the order of b1, b2), ends = [(smiles, [boundary]),
+    (smiles, [boundary])] the component beyond b1 and the one beyond b2, and a boundary is
+    (index in the parsed smiles, symbol, neighbour index in m, neighbour symbol).  None when
+    the pieces are not a valid decomposition (compositions must add up to M + 4 H)."""
+    rw = Chem.RWMol(m)
+    for a in rw.GetAtoms():
+        a.SetIntProp("c09a", a.GetIdx())
+    for i, j in (b1, b2):
+        bond = rw.GetBondBetweenAtoms(i, j)
+        if bond is None or bond.GetBondType() != SINGLE:
+            return None
+        rw.RemoveBond(i, j)
+        for k in (i, j):
+            h = rw.AddAtom(Chem.Atom(1))
+            rw.AddBond(k, h, SINGLE)
+    whole = rw.GetMol()
+    try:
+        Chem.SanitizeMol(whole)
+        frags = Chem.GetMolFrags(whole, asMols=True, sanitizeFrags=True)
+    except Exception:
+        return None
+    if len(frags) != 3:
+        return None
+    comps = []
+    total = {}
+    for f in frags:
+        try:
+            f = Chem.RemoveHs(f, _rmh_params())
+        except Exception:
+            return None
+        where = {}
+        for a in f.GetAtoms():
+            if a.HasProp("c09a"):
+                where[a.GetIntProp("c09a")] = a.GetIdx()
+                a.ClearProp("c09a")
+        smi = Chem.MolToSmiles(f)
+        order = [int(x) for x in f.GetProp("_smilesAtomOutputOrder").strip("[]").split(",") if x]
+        back = Chem.MolFromSmiles(smi)
+        if back is None or back.GetNumAtoms() != f.GetNumAtoms():
+            return None
+        bounds = []
+        for ci, (i, j) in enumerate((b1, b2)):
+            for b, n in ((i, j), (j, i)):
+                if b in where:
+                    pos = order.index(where[b])
+                    sym = back.GetAtomWithIdx(pos).GetSymbol()
+                    if sym != m.GetAtomWithIdx(b).GetSymbol():
+                        return None
+                    bounds.append((ci, (pos, sym, n, m.GetAtomWithIdx(n).GetSymbol())))
+        comps.append((smi, bounds))
+        total = oracle.comp_add(total, oracle.comp(smi))
+    if total != oracle.comp_add(oracle.comp_mol(m), {"H": 4}):
+        return None
+    middle = [c for c in comps if len(c[1]) == 2]
+    ends = [c for c in comps if len(c[1]) == 1]
+    if len(middle) != 1 or len(ends) != 2:
+        return None
+    mid = middle[0]
+    if sorted(ci for ci, _ in mid[1]) != [0, 1]:
+        return None
+    mid = (mid[0], [b for _, b in sorted(mid[1], key=lambda x: x[0])])
+    ends = sorted(ends, key=lambda c: c[1][0][0])
+    ends = [(c[0], [c[1][0][1]]) for c in ends]
+    return mid, ends
+
+
+def do_merge_set(comps):
+    """comps: [(smiles, src_smiles, [(boundary idx, symbol, nbr idx | None, nbr symbol | None)])]
+    added like mcs_based_method.build_compounds does -> outcome dict."""
+    from synrbl.SynMCSImputer.structure import CompoundSet
+    from synrbl.SynMCSImputer.merge import merge
+
+    cset = CompoundSet()
+    for smi, src, bounds in comps:
+        c = cset.add_compound(smi, src_mol=src)
+        for bi, bs, ni, ns in bounds:
+            if ni is None:
+                c.add_boundary(bi, symbol=bs)
+            else:
+                c.add_boundary(bi, symbol=bs, neighbor_index=ni, neighbor_symbol=ns)
+    try:
+        r = merge(cset)
+        return {
+            "smiles": r.smiles,
+            "rules": [[type(x).__name__, x.name] for x in r.rules],
+            "open": len(r.boundaries),
+        }
+    except Exception as e:  # classified by the caller
+        msg = [ln.strip() for ln in str(e).splitlines() if ln.strip()]
+        return {"exc": [type(e).__name__, " | ".join(msg[:3])[:300]]}
+
+
+def explained(out, input_smiles):
+    """Do the reported rule applications (with multiplicity) account for the result?
+    Every expand application adds its compound and is followed by one merge application;
+    a bond-forming merge of order k joins two components and takes k hydrogens from each
+    end; a restriction rule leaves them apart.  Returns None or a reason; "n/a" when a
+    reported merge rule rewrites bonds/charges (its hydrogen balance is rule specific)."""
+    tables = rule_tables()
+    exp = [n for k, n in out["rules"] if k == "ExpandRule"]
+    mrg = [n for k, n in out["rules"] if k == "MergeRule"]
+    if len(exp) != len(mrg):
+        return "{} expand applications but {} merge applications reported".format(
+            len(exp), len(mrg))
+    want = {}
+    n_comp = 0
+    for smi in input_smiles:
+        want = oracle.comp_add(want, oracle.comp(smi))
+        n_comp += sum(_mols_ns(smi).values())
+    for n in exp:
+        csmi = tables["ExpandRule"][n]["compound"]["smiles"]
+        want = oracle.comp_add(want, oracle.comp(csmi))
+        n_comp += sum(_mols_ns(csmi).values())
+    for n in mrg:
+        r = tables["MergeRule"][n]
+        if r.get("action1") or r.get("action2"):
+            return "n/a"
+        k = {"single": 1, "double": 2, None: 0}[r.get("bond")]
+        if k:
+            want = oracle.comp_add(want, {"H": -2 * k})
+            n_comp -= 1
+    got = oracle.comp(out["smiles"])
+    if got != want:
+        return "composition {} != inputs + compounds of the reported rules - bond hydrogens {}".format(
+            dict(sorted(got.items())), dict(sorted(want.items())))
+    got_n = sum(_mols_ns(out["smiles"]).values())
+    if got_n != n_comp:
+        return "{} molecules in the result, the reported rules explain {}".format(got_n, n_comp)
+    return None
+
+
+def multi_eval(case, comps):
+    """one merge() of a compound set that contains a two-boundary fragment"""
+    out = do_merge_set(comps)
+    inputs = [c[0] for c in comps]
+    if "exc" in out:
+        if is_refusal(out["exc"]):
+            out["refused"] = True
+            return out, None
+        return out, _bad("multi", case, out, "merged compound or a documented refusal",
+                         ["multi", "exception", out["exc"][0]],
+                         "merge of {} raised {}: {}".format(
+                             inputs, out["exc"][0], out["exc"][1]))
+    inv = invariants(out, inputs)
+    if inv:
+        # one root cause = one key: the merge-rule part is order and multiplicity free
+        key = ["multi", inv[0][0]] + sorted(set(inv[0][1:]))
+        return out, _bad("multi", case, out, None, key,
+                         "{} (cuts {} of {}): {}".format(inputs, case["cuts"], case["src"], inv[1]))
+    why = explained(out, inputs)
+    if why == "n/a":
+        out["unexplainable"] = True
+    elif why:
+        return out, _bad("multi", case, out, None, ["multi", "rules-do-not-explain-result"],
+                         "{} (cuts {} of {}) -> {} with rules {}: {}".format(
+                             inputs, case["cuts"], case["src"], out["smiles"],
+                             [n for _, n in out["rules"]], why))
+    return out, None
+
+
+def _spectator_comp(smi):
+    # build_compounds: water is not a catalyst, it gets a boundary on its oxygen
+    return (smi, smi, [(0, "O", None, None)] if smi == "O" else [])
+
+
+def multi_comps(src, mid, ends, case):
+    """the compound list of one multi case"""
+    bounds = list(mid[1]) if case["border"] == 0 else list(reversed(mid[1]))
+    middle = (mid[0], src, bounds)
+    if case["mode"] == "alone":
+        return [middle]
+    if case["mode"] == "spectator":
+        other = _spectator_comp(case["spectator"])
+    else:
+        e = ends[case["end"]]
+        other = (e[0], src, list(e[1]))
+    return [middle, other] if case["first"] == 0 else [other, middle]
+
+
+def multi_cases(src, cuts, tier):
+    base = {"src": src, "cuts": [list(cuts[0]), list(cuts[1])]}
+    borders = (0, 1)
+    for border in borders:
+        yield dict(base, mode="alone", border=border)
+    for border in (borders if tier == "thorough" else (0,)):
+        for sp in SPECTATORS:
+            for first in (0, 1):
+                yield dict(base, mode="spectator", spectator=sp, first=first, border=border)
+        for end in (0, 1):
+            for first in (0, 1):
+                yield dict(base, mode="end", end=end, first=first, border=border)
+
+
+def multi_item(item):
+    """worker: every unordered pair of cuttable bonds of one molecule"""
+    src, tier = item
+    acc = {"n": 0, "hist": {}, "exceptions": 0, "bad": [], "nbad": 0, "pairs": 0,
+           "skipped": 0, "refused": 0, "nontrivial": 0, "twice": 0, "unexplainable": 0}
+    m = Chem.MolFromSmiles(src)
+    bonds = cuttable_bonds(m)
+    for x in range(len(bonds)):
+        for y in range(x + 1, len(bonds)):
+            r = cut_two(m, bonds[x], bonds[y])
+            if r is None:
+                acc["skipped"] += 1
+                continue
+            mid, ends = r
+            acc["pairs"] += 1
+            for case in multi_cases(src, (bonds[x], bonds[y]), tier):
+                out, bad = multi_eval(case, multi_comps(src, mid, ends, case))
+                acc["n"] += 1
+                _tally(acc, out)
+                if out.get("refused"):
+                    acc["refused"] += 1
+                if out.get("unexplainable"):
+                    acc["unexplainable"] += 1
+                exp = [n for k, n in out.get("rules", []) if k == "ExpandRule"]
+                if exp:
+                    acc["nontrivial"] += 1
+                if len(exp) != len(set(exp)):
+                    acc["twice"] += 1
+                if bad:
+                    acc["nbad"] += 1
+                    if len(acc["bad"]) < MAX_BAD_PER_ITEM:
+                        acc["bad"].append(bad)
+    return acc
+
+
+def multi_space(tier):
+    mols = list(universe.U(["C", "N", "O", "S", "P", "Cl"], 4, rings=False))
+    mols += [s for s in universe.U(["C", "N", "O"], 5)
+             if tier == "thorough" or _n_heavy(s) <= 4]
+    seen, out = set(), []
+    for s in mols:
+        if s not in seen and oracle.closed_shell(s):
+            seen.add(s)
+            out.append(s)
+    return out
+
+
 # ------------------------------------------------------------------ spaces
 
 
@@ -827,6 +1080,9 @@ def run(tier, seed):
     _collect(res, r3, per_key)
     r4 = pmap("checks.c09:targeted_all", [0], chunk=1, seed=seed)
     _collect(res, r4, per_key)
+    multi_mols = multi_space(tier)
+    r5 = pmap("checks.c09:multi_item", [(x, tier) for x in multi_mols], chunk=10, seed=seed)
+    _collect(res, r5, per_key)
     probe = pmap("checks.c09:alkoxy_probe", [0], chunk=1, seed=seed)[0]
     if "exc" in probe:
         res.observations.append(
@@ -838,12 +1094,14 @@ def run(tier, seed):
     def tot(accs, k):
         return sum(a[k] for a in accs)
 
-    hist = _merge_hist(r1) + _merge_hist(r2) + _merge_hist(r3) + _merge_hist(r4)
+    hist = (_merge_hist(r1) + _merge_hist(r2) + _merge_hist(r3) + _merge_hist(r4)
+            + _merge_hist(r5))
     hist_rt_single = _merge_hist(r1) + _merge_hist(r2)
-    evaluations = tot(r1, "n") + tot(r2, "n") + tot(r3, "n") + tot(r4, "n")
+    evaluations = tot(r1, "n") + tot(r2, "n") + tot(r3, "n") + tot(r4, "n") + tot(r5, "n")
     nontrivial = (tot(r1, "rt_nontrivial") + tot(r1, "single_nontrivial")
-                  + tot(r3, "nontrivial") + tot(r4, "nontrivial"))
-    n_bad = tot(r1, "nbad") + tot(r2, "nbad") + tot(r3, "nbad") + tot(r4, "nbad")
+                  + tot(r3, "nontrivial") + tot(r4, "nontrivial") + tot(r5, "nontrivial"))
+    n_bad = (tot(r1, "nbad") + tot(r2, "nbad") + tot(r3, "nbad") + tot(r4, "nbad")
+             + tot(r5, "nbad"))
     ex_i = len(canon_items) // 2
     res.coverage = {
         "evaluations": evaluations,
@@ -852,8 +1110,10 @@ def run(tier, seed):
                 "acyclic single heavy-atom bond) round trips of the canonical spelling in "
                 "which a merge rule fired + distinct (molecule, bond, side) single-fragment "
                 "completions in which an expand rule fired + distinct ordered cross pairs in "
-                "which a merge rule fired + the targeted-library pairs (renumbered spellings "
-                "and the second compound order are evaluated but not counted as distinct).",
+                "which a merge rule fired + the targeted-library pairs + the two-boundary "
+                "('multi') compound sets in which an expand rule fired (renumbered spellings "
+                "and the second compound order of round trips are evaluated but not counted "
+                "as distinct).",
         "samples": [
             {"roundtrip": canon_items[ex_i][0]},
             {"roundtrip": canon_items[-1][0]},
@@ -865,6 +1125,15 @@ def run(tier, seed):
         "rules_fired_cross": dict(sorted(_merge_hist(r3).items())),
         "rules_fired_targeted": dict(sorted(_merge_hist(r4).items())),
         "targeted_pairs": tot(r4, "n"),
+        "rules_fired_multi": dict(sorted(_merge_hist(r5).items())),
+        "multi_molecules": len(multi_mols),
+        "multi_bond_pairs": tot(r5, "pairs"),
+        "multi_cases": tot(r5, "n"),
+        "multi_cases_with_expand_rule": tot(r5, "nontrivial"),
+        "multi_cases_same_expand_rule_twice": tot(r5, "twice"),
+        "multi_cases_refused": tot(r5, "refused"),
+        "multi_cases_without_hydrogen_balance": tot(r5, "unexplainable"),
+        "multi_pairs_skipped_by_harness_selfcheck": tot(r5, "skipped"),
         "molecules": len(canon_items),
         "bonds_cut": tot(r1, "bonds"),
         "roundtrip_merges": tot(r1, "rt") + tot(r2, "rt"),
@@ -881,7 +1150,8 @@ def run(tier, seed):
         "cross_pairs": tot(r3, "n"),
         "cross_pairs_nondefault_rule": tot(r3, "nondefault"),
         "exceptions_from_merge": (tot(r1, "exceptions") + tot(r2, "exceptions")
-                                  + tot(r3, "exceptions") + tot(r4, "exceptions")),
+                                  + tot(r3, "exceptions") + tot(r4, "exceptions")
+                                  + tot(r5, "exceptions") - tot(r5, "refused")),
         "cuts_skipped_by_harness_selfcheck": tot(r1, "skipped") + tot(r2, "skipped"),
         "violating_cases": n_bad,
         "exhaustive": True,
@@ -915,6 +1185,12 @@ def replay(v):
         if ra is None or rb is None:
             return []
         _, bad = cross_pair(ra, rb, sub=v.sub)
+    elif v.sub == "multi":
+        m = Chem.MolFromSmiles(c["src"])
+        r = cut_two(m, tuple(c["cuts"][0]), tuple(c["cuts"][1]))
+        if r is None:
+            return []
+        _, bad = multi_eval(c, multi_comps(c["src"], r[0], r[1], c))
     if bad is None:
         return []
     return [Violation(bad["sub"], bad["case"], bad["observed"], bad["expected"], bad["key"],
